@@ -1296,6 +1296,16 @@ def explore(ctx):
         ctx.bound("tracks", dict(("%d track(s): voices" % k, len(v["voices"])) for k, v in TRK_CFG.items()))
         shards = [(k, i) for k in sorted(TRK_CFG) for i in range(len(TRK_CFG[k]["voices"]))]
         ctx.product("tracks", shards, gen_tracks)
+        # every ordered pair of instruments on two one-bar tracks (and every ordered triple of five of them): what one
+        # track's instrument is never leaks into the announcement of the next
+        ni = len(INSTRUMENTS)
+        pairs = [{"voices": [[0], [1]], "instruments": [a, b], "channels": PT_CHANNELS[:2], "via": via, "bpm": 120}
+                 for a in range(ni) for b in range(ni) for via in ("tracks", "composition")]
+        sub = [0, 1, 2, 7, 12]
+        triples = [{"voices": [[0], [1], [3]], "instruments": [a, b, c], "channels": PT_CHANNELS[:3], "via": "tracks", "bpm": 120}
+                   for a in sub for b in sub for c in sub]
+        ctx.bound("tracks_instrument_pairs", {"ordered pairs": ni * ni, "ordered triples of": [INSTRUMENTS[i] for i in sub]})
+        ctx.serial("tracks", pairs + triples)
         # tracks without a single bar among the others (and alone): they take no time, but each is announced on its channel
         empties = [[[]], [[], []], [[], [0]], [[0], []], [[3, 1], []], [[], [0], [3]], [[0], [], [6]], [[0], [1], []], [[], [], [7]]]
         ctx.serial("tracks", [_tracks_case(c, n) for c in empties for n in range(8)])
